@@ -12,7 +12,7 @@ import (
 func init() {
 	register("C20", &propDef{
 		Title: "The metadata Pack returns describes the slug it wrote",
-		Rules: []func(*Checker){ruleC20Files, ruleC20Size, ruleC20Same, ruleC20HdrSize, ruleWritersClosed("C20.writers"), ruleBodyWritesAccounted("C20.bodywrites"),
+		Rules: []func(*Checker){ruleC20Files, ruleC20Size, ruleC20Same, ruleC20HdrSize, ruleWritersClosed("C20.writers"), ruleBodyWritesAccounted("C20.bodywrites"), ruleFreshHeaderPerEntry("C20.freshheader"),
 			aliasRuleFiltered(ruleC12Errors, "C12.errors", "C20.errors", 2, func(o Oblig) bool {
 				return strings.Contains(o.Key, "(*slug.Packer).Pack/") && strings.Contains(o.Key, "Close")
 			})},
